@@ -85,9 +85,25 @@ def build_mean(name, d, batch=()):
         return M.ZeroMean(batch_shape=bs)
     if name == "constant":
         return M.ConstantMean(batch_shape=bs)
+    if name == "constant_constrained":
+        return M.ConstantMean(batch_shape=bs, constant_constraint=gpytorch.constraints.Interval(-2.0, 3.0))
     if name == "linear":
         return M.LinearMean(d, batch_shape=bs)
     raise ValueError(name)
+
+
+def mean_oracle(mean_module, X):
+    """documented mean functions from the PUBLIC (constrained) parameter values; other classes: the module itself"""
+    M = gpytorch.means
+    if type(mean_module) is M.ZeroMean:
+        return torch.zeros(*torch.broadcast_shapes(X.shape[:-2], mean_module.batch_shape), X.shape[-2], dtype=X.dtype)
+    if type(mean_module) is M.ConstantMean:
+        c = mean_module.constant  # the constrained value (ConstantMean documents `constant`, optionally constrained)
+        return c.unsqueeze(-1).expand(*torch.broadcast_shapes(c.shape, X.shape[:-2]), X.shape[-2])
+    if type(mean_module) is M.LinearMean:
+        out = (X @ mean_module.weights).squeeze(-1)
+        return out + mean_module.bias if mean_module.bias is not None else out
+    return mean_module(X)
 
 
 def randomize(module, g, scale=0.7):
